@@ -62,7 +62,7 @@ def detect_renames(funcs: Dict[str, "_Info"], base: Dict[str, dict]) -> Dict[str
     gone, a non-baseline function sits in the same scope with the same parameters and (nearly) the
     same set of callees."""
     out: Dict[str, str] = {}
-    missing = [q for q in base if q not in funcs and base[q]]
+    missing = [q for q in base if q not in funcs and base[q] and ".<locals>." not in q]
     extra = [q for q in funcs if q not in base]
     for m in missing:
         scope = m.rsplit(".", 1)[0] if "." in m else ""
@@ -475,6 +475,62 @@ class Inliner:
             ast.fix_missing_locations(s)
         return out or [ast.Pass()]
 
+    def _expand_gen(self, call: ast.Call, cls: Optional[str], caller_q: str, on_yield, on_yield_from) -> Optional[List[ast.stmt]]:
+        """Inline a generator helper at its single consumer: every `yield E` statement becomes on_yield(E)."""
+        t = self._target(call, cls)
+        if t is None:
+            return None
+        q, inf, is_m = t
+        if not inf.is_gen or not self._inlinable(q, inf, caller_q):
+            return None
+        try:
+            mapping, pre = _bind(call, inf, is_m)
+            mapping = self._local_renames(inf, mapping, pre)
+            body = [copy.deepcopy(s) for s in inf.node.body]
+            if body and isinstance(body[0], ast.Expr) and isinstance(body[0].value, ast.Constant) and isinstance(body[0].value.value, str):
+                body = body[1:]
+            ren = _Renamer(mapping)
+            pre = [ast.Assign(targets=[ren.visit(copy.deepcopy(tg)) for tg in s.targets], value=s.value, type_comment=None) for s in pre]
+            for s_ in pre:
+                ast.copy_location(s_, call)
+            body = [ren.visit(s) for s in body]
+            body = _convert_returns(body, lambda v, at: [])
+
+            def conv(stmts):
+                out = []
+                for st in stmts:
+                    if isinstance(st, ast.Expr) and isinstance(st.value, ast.Yield):
+                        out += on_yield(st.value.value if st.value.value is not None else ast.Constant(value=None), st)
+                        continue
+                    if isinstance(st, ast.Expr) and isinstance(st.value, ast.YieldFrom):
+                        out += on_yield_from(st.value.value, st)
+                        continue
+                    if isinstance(st, (ast.FunctionDef, ast.AsyncFunctionDef, ast.ClassDef)):
+                        out.append(st)
+                        continue
+                    for fld in ("body", "orelse", "finalbody"):
+                        sub = getattr(st, fld, None)
+                        if isinstance(sub, list) and sub and isinstance(sub[0], ast.stmt):
+                            setattr(st, fld, conv(sub) or [ast.Pass()])
+                    if isinstance(st, ast.Try):
+                        for h in st.handlers:
+                            h.body = conv(h.body) or [ast.Pass()]
+                    out.append(st)
+                return out
+
+            body = conv(body)
+            for st in body:
+                for x in _walk_own_stmt(st):
+                    if isinstance(x, (ast.Yield, ast.YieldFrom)):
+                        raise _CannotInline("yield used as an expression")
+        except _CannotInline:
+            return None
+        self.done.append(f"{q} (generator) -> {caller_q}")
+        out = pre + body
+        for s_ in out:
+            ast.fix_missing_locations(s_)
+        return out or [ast.Pass()]
+
     def _rewrite_body(self, stmts: List[ast.stmt], cls: Optional[str], caller_q: str, in_return_ctx: bool = True) -> List[ast.stmt]:
         out: List[ast.stmt] = []
         for s in stmts:
@@ -607,6 +663,70 @@ class Inliner:
             ast.copy_location(r, at)
             return [r]
 
+        # ---- a generator helper and its consumer ------------------------------------------------
+        def own_loop_jumps(body) -> bool:
+            todo = list(body)
+            while todo:
+                x = todo.pop()
+                if isinstance(x, (ast.Break, ast.Continue)):
+                    return True
+                if isinstance(x, (ast.For, ast.While, ast.AsyncFor, ast.FunctionDef, ast.AsyncFunctionDef, ast.Lambda, ast.ClassDef)):
+                    continue
+                todo.extend(ast.iter_child_nodes(x))
+            return False
+
+        if isinstance(s, ast.For) and not s.orelse and isinstance(s.iter, ast.Call) and self._target(s.iter, cls) is not None and self._target(s.iter, cls)[1].is_gen and not own_loop_jumps(s.body):
+            def on_yield(e, at, s=s):
+                a = ast.Assign(targets=[copy.deepcopy(s.target)], value=e, type_comment=None)
+                ast.copy_location(a, at)
+                return [a] + [copy.deepcopy(b) for b in s.body]
+
+            def on_yield_from(e, at, s=s):
+                f = ast.For(target=copy.deepcopy(s.target), iter=e, body=[copy.deepcopy(b) for b in s.body], orelse=[], type_comment=None)
+                ast.copy_location(f, at)
+                return [f]
+
+            rep = self._expand_gen(s.iter, cls, caller_q, on_yield, on_yield_from)
+            if rep is not None:
+                return rep
+        coll = None
+        if isinstance(s, (ast.Assign, ast.AnnAssign)) and isinstance(s.value, ast.Call) and isinstance(s.value.func, ast.Name) and s.value.func.id in ("list", "set", "tuple", "sorted") and len(s.value.args) == 1 and not s.value.keywords \
+                and isinstance(s.value.args[0], ast.Call) and self._target(s.value.args[0], cls) is not None and self._target(s.value.args[0], cls)[1].is_gen:
+            tg = s.targets[0] if isinstance(s, ast.Assign) and len(s.targets) == 1 else getattr(s, "target", None)
+            if isinstance(tg, ast.Name) and s.value.func.id in ("list", "set"):
+                coll = (tg.id, "append" if s.value.func.id == "list" else "add", s.value.args[0], s.value.func.id)
+        if isinstance(s, ast.Expr) and isinstance(s.value, ast.Call) and isinstance(s.value.func, ast.Attribute) and s.value.func.attr in ("extend", "update") and isinstance(s.value.func.value, ast.Name) \
+                and len(s.value.args) == 1 and isinstance(s.value.args[0], ast.Call) and self._target(s.value.args[0], cls) is not None and self._target(s.value.args[0], cls)[1].is_gen:
+            coll = (s.value.func.value.id, "append" if s.value.func.attr == "extend" else "add", s.value.args[0], None)
+        if isinstance(s, ast.Return) and isinstance(s.value, ast.Call) and isinstance(s.value.func, ast.Name) and s.value.func.id in ("list", "set") and len(s.value.args) == 1 and not s.value.keywords \
+                and isinstance(s.value.args[0], ast.Call) and self._target(s.value.args[0], cls) is not None and self._target(s.value.args[0], cls)[1].is_gen:
+            coll = ("_sv_ret", "append" if s.value.func.id == "list" else "add", s.value.args[0], s.value.func.id)
+        if coll is not None:
+            cname, meth, gcall, ctor = coll
+
+            def on_yield2(e, at):
+                x = ast.Expr(value=ast.Call(func=ast.Attribute(value=ast.Name(id=cname, ctx=ast.Load()), attr=meth, ctx=ast.Load()), args=[e], keywords=[]))
+                ast.copy_location(x, at)
+                return [x]
+
+            def on_yield_from2(e, at):
+                x = ast.Expr(value=ast.Call(func=ast.Attribute(value=ast.Name(id=cname, ctx=ast.Load()), attr="extend" if meth == "append" else "update", ctx=ast.Load()), args=[e], keywords=[]))
+                ast.copy_location(x, at)
+                return [x]
+
+            rep = self._expand_gen(gcall, cls, caller_q, on_yield2, on_yield_from2)
+            if rep is not None:
+                if ctor is not None:
+                    init = ast.Assign(targets=[ast.Name(id=cname, ctx=ast.Store())], value=ast.List(elts=[], ctx=ast.Load()) if ctor == "list" else ast.Call(func=ast.Name(id="set", ctx=ast.Load()), args=[], keywords=[]), type_comment=None)
+                    ast.copy_location(init, s)
+                    ast.fix_missing_locations(init)
+                    rep = [init] + rep
+                if isinstance(s, ast.Return):
+                    r_ = ast.Return(value=ast.Name(id="_sv_ret", ctx=ast.Load()))
+                    ast.copy_location(r_, s)
+                    ast.fix_missing_locations(r_)
+                    rep = rep + [r_]
+                return rep
         if isinstance(s, ast.Expr) and isinstance(s.value, ast.Call):
             return self._expand_call(s.value, cls, caller_q, discard)
         if isinstance(s, ast.Expr) and isinstance(s.value, ast.YieldFrom) and isinstance(s.value.value, ast.Call):
@@ -882,21 +1002,34 @@ class Inliner:
         return out
 
     def run(self, max_rounds: int = 3) -> List[str]:
-        if not self.unknown:
+        if not self.unknown and self.baseline is None:
             return []
         self._n_closures = 0
+        self._nested_done: Dict[str, _Info] = {}
         for q, inf in list(self.funcs.items()):
             inf.node.body = self._closure_convert(inf.node.body, inf.cls)
         for _ in range(max_rounds):
             before = len(self.done)
             for q, inf in list(self.funcs.items()):
                 self._caller_names = {x.id for x in ast.walk(inf.node) if isinstance(x, ast.Name)} | {a.arg for a in ast.walk(inf.node) if isinstance(a, ast.arg)}
+                # closures that are not in the baseline inventory (newly introduced nested helpers) are
+                # inlinable inside their enclosing function, provided they are only ever called
+                added = []
+                if self.baseline is not None:
+                    call_funcs = {id(c.func) for c in ast.walk(inf.node) if isinstance(c, ast.Call)}
+                    value_uses = {x.id for x in ast.walk(inf.node) if isinstance(x, ast.Name) and isinstance(x.ctx, ast.Load) and id(x) not in call_funcs}
+                    for x in _walk_own(inf.node):
+                        if isinstance(x, ast.FunctionDef) and f"{q}.<locals>.{x.name}" not in self.baseline and x.name not in self.unknown and x.name not in value_uses and not x.decorator_list:
+                            self.unknown[x.name] = _Info(x, None)
+                            added.append(x.name)
                 inf.node.body = [self._subst_expr_helpers(st, inf.cls, q) for st in inf.node.body]
                 inf.node.body = self._rewrite_body(inf.node.body, inf.cls, q)
                 # nested closures of this function
                 for x in _walk_own(inf.node):
                     if isinstance(x, ast.FunctionDef):
                         x.body = self._rewrite_body(x.body, inf.cls, q + ".<locals>." + x.name)
+                for nm in added:
+                    self._nested_done.setdefault(nm, self.unknown.pop(nm))
             if len(self.done) == before:
                 break
         self._drop_dead_helpers()
@@ -905,9 +1038,9 @@ class Inliner:
     def _drop_dead_helpers(self) -> None:
         """A helper whose every use was inlined is dead code: remove its definition so that the call
         graph does not see a caller-less copy of the moved statements."""
-        inlined = {d.split(" -> ")[0] for d in self.done}
+        inlined = {d.split(" -> ")[0].replace(" (generator)", "") for d in self.done}
         for q in inlined:
-            inf = self.unknown.get(q)
+            inf = self.unknown.get(q) or getattr(self, "_nested_done", {}).get(q)
             if inf is None:
                 continue
             name = inf.node.name
